@@ -76,9 +76,10 @@ Drop(c) ==
   /\ UNCHANGED <<cfg, now, started, nextAt, failed, att, ngate>>
 Quiescent == \A c \in Callers : /\ st[c] # "created" /\ ~(st[c] = "running" /\ q[c] # <<>>)
                                 /\ ~(st[c] = "running" /\ ~Par /\ started[c] < cfg.max /\ now >= nextAt[c])
+Lazy == "lazy" \in DOMAIN cfg /\ cfg.lazy = 1        \* runs in which the executor may poll the hedged call late
 Advance(d) ==
-  /\ d > 0 /\ Quiescent
-  /\ \A c \in Callers : (st[c] = "running" /\ ~Par /\ started[c] < cfg.max) => now + d <= nextAt[c]
+  /\ d > 0
+  /\ Lazy \/ (Quiescent /\ \A c \in Callers : (st[c] = "running" /\ ~Par /\ started[c] < cfg.max) => now + d <= nextAt[c])
   /\ now' = now + d /\ ev' = [e |-> "advance", d |-> d, t |-> now + d, ns |-> 0]
   /\ UNCHANGED <<cfg, st, started, nextAt, failed, q, att, ngate>>
 PollAny(c) == FirstPoll(c) \/ Poll(c)
